@@ -102,7 +102,7 @@ def c02_sessions(rep):
 def run_c03(rep):
     n, ops = sizes(rep, (320, 16), (5000, 60))
     families.play_family(rep, n, ops, features=dict(top_jumps=0.4, block_jumps=0.4, hooks=0.4, hook_early=0.5, join=0.35, inputs=0.6, conds=0.8, loops=0.5, render=0.5, block_counters=0.8),
-                         weights=dict(read=45, choose=35, goto=8, save=6), oracle_names=["oracle_c03", "oracle_c10"],
+                         weights=dict(read=45, choose=35, goto=8, save=6), oracle_names=["oracle_c03", "oracle_c10", "oracle_c04"],
                          known_classes=known_classes("C03") | known_classes("C10") | known_classes("C08"), label="c03")
     # (the commands in the block of a `-> @join` choice run exactly once too: each block bumps its own counter — C10's oracle)
     # reads never consume anything the story holds (one-shot iterators, ranges, sets, deques kept in variables): real code only
@@ -268,6 +268,17 @@ def c09_sessions(rep, n_walks):
 
 
 C10_SESSIONS = [
+    # text-only blocks under repeatable join choices (nothing but the section progress changes), then undo: one section back
+    (":: Start\ngo\n+ [in] -> J\n\n:: J\nS0\n+ [n1] -> @join\n    b1\n@join\nS1\n+ [n2] -> @join\n    b2\n@join\nS2\n+ [n3] -> @join\n@join\nS3\n+ [x] -> Start\n",
+     [{"op": "choose", "i": 0}, {"op": "choose", "i": 0}, {"op": "choose", "i": 0}, {"op": "undo"}, {"op": "choose", "i": 0}, {"op": "choose", "i": 0}, {"op": "undo"}, {"op": "undo"}],
+     {1: "b1\nS1\n", 2: "b2\nS2\n", 3: "b1\nS1\n", 4: "b2\nS2\n", 5: "S3\n", 6: "b2\nS2\n", 7: "b1\nS1\n"}),
+    # the text between two markers fails for one of the join choices; the other one, taken from the unchanged screen, shows it
+    (":: Start\n~ d = 0\ngo\n+ [in] -> J\n\n:: J\nS0\n+ [a] -> @join\n    ~ d = 0\n+ [b] -> @join\n    ~ d = 2\n@join\n@if True:\n  ~ q = 10 % d\n@endif\nS1 {d}\n+ [c] -> @join\n@join\nS2\n+ [x] -> Start\n",
+     [{"op": "choose", "i": 0}, {"op": "choose", "i": 0}, {"op": "choose", "i": 1}, {"op": "choose", "i": 0}], {2: "S1 2\n", 3: "S2\n"}),
+    # a detour that comes back to the passage through a jump and fails there: the screen and its section stay
+    (":: Start\n~ n = 0\ngo\n+ [in] -> P\n\n:: P\n~ n = n + 1\n~ z = 1 % (2 - n)\nS0\n+ [next] -> @join\n@join\nS1\n+ [detour] -> D\n+ [next2] -> @join\n@join\nS2\n+ [x] -> Start\n\n"
+     ":: D\ndetour\n@if True:\n  -> P\n@endif\n",
+     [{"op": "choose", "i": 0}, {"op": "choose", "i": 0}, {"op": "choose", "i": 0}, {"op": "choose", "i": 1}], {1: "S1\n", 3: "S2\n"}),
     # (source, ops, {step index: text that must be shown by that step}) — sections seen one at a time, in order, also after a choice failed
     (":: Start\n~ v = 0\ngo\n+ [in] -> J\n\n:: J\n~ v = v + 1\n~ k = 10 % (2 - v)\nS0\n+ [next] -> @join\n    b1\n@join\nS1\n+ [again] -> J\n+ [next2] -> @join\n    b2\n@join\nS2\n+ [x] -> Start\n",
      [{"op": "choose", "i": 0}, {"op": "choose", "i": 0}, {"op": "choose", "i": 0}, {"op": "choose", "i": 1}], {1: "b1\nS1\n", 3: "b2\nS2\n"}),
@@ -287,7 +298,8 @@ def c10_sessions(rep):
             continue
         for k, text in want.items():
             st = c["real"]["steps"][k]
-            got = (st["resp"].get("out") or {}).get("content") if "out" in st["resp"] else None
+            got = (st["resp"].get("out") or {}).get("content") if "out" in st["resp"] else \
+                ((st["state"].get("out") or {}).get("content") if st["resp"].get("ret") is True else None)
             if got != text:
                 rep.violations.append({"cls": None, "family": "c10-sessions", "oracle": "sections in order",
                                        "what": f"step {k} should show {text!r} (the block of the join choice, then the text up to the next marker); it answered {str(st['resp'])[:160]}",
@@ -348,7 +360,7 @@ def run_c08(rep):
     families.play_family(rep, n, ops, features=dict(top_jumps=0.6, block_jumps=0.7, markers=0.95, loops=0.5, conds=0.8,
                                                     jump_mode_cycles=0.3, params=0.3, join=0.35, odd_names=0.3),
                          weights=dict(choose=65, goto=12, undo=5, redo=3, read=8, bad=3),
-                         oracle_names=["oracle_c08", "oracle_c02"], known_classes=known_classes("C08") | known_classes("C02"), label="c08")
+                         oracle_names=["oracle_c08", "oracle_c02", "oracle_wasnow"], known_classes=known_classes("C08") | known_classes("C02"), label="c08")
     compile_tie(rep, "c08-compile", dict(top_jumps=0.6, block_jumps=0.7, loops=0.5, conds=0.8, params=0.3, odd_names=0.3))
     c08_ring_probes(rep)
 
@@ -359,6 +371,7 @@ def run_c15(rep):
     fam_fault.fault_family(rep, n, ops, per, known_classes=known_classes("C15"))
     fam_fault.failed_choice_invisible(rep)
     fam_fault.exotic_failures(rep, "C15")
+    c10_sessions(rep)      # (a failed choice leaves the @join progress of the displayed passage alone)
     # model tie + undo-after-fault on stories that fail at random points
     n2, ops2 = sizes(rep, (300, 14), (4000, 40))
     families.play_family(rep, n2, ops2, features=dict(faults=0.3, stmt_faults=0.25, hooks=0.4, params=0.5, loops=0.5),
@@ -529,6 +542,7 @@ def run_c11(rep):
     n_seq, max_len, n_mut, depths = sizes(rep, (4000, 6, 1500, [5, 60, 300, 1020]), (120000, 8, 40000, [5, 60, 250, 400, 600, 1100, 1500]))
     fam_total.total_family(rep, n_seq, max_len, n_mut, depths)
     fam_total.include_cases(rep)
+    fam_total.fixed_texts(rep)
     fam_total.component_family(rep, sizes(rep, 8000, 160000))
     text_tie(rep, "c11-text", quick=(500, 400, 150), thorough=(15000, 10000, 3000))
 
